@@ -2024,9 +2024,17 @@ class PyCdlib:
             if entry_extent in extent_to_inode:
                 ino = extent_to_inode[entry_extent]
             else:
+                length = self._hidden_boot_file_length(entry)
+                # The number of sectors to load may be more than the file
+                # holds; the file cannot reach into the data that follows it.
+                following = [extent for extent in extent_to_inode if extent > entry_extent]
+                following.append(self.pvd.space_size)
+                room = (min(following) - entry_extent) * self.logical_block_size
+                if 0 < room < length:
+                    length = room
                 ino = inode.Inode()
-                ino.parse(entry_extent, self._hidden_boot_file_length(entry),
-                          self._cdfp, self.logical_block_size)
+                ino.parse(entry_extent, length, self._cdfp,
+                          self.logical_block_size)
                 extent_to_inode[entry_extent] = ino
                 self.inodes.append(ino)
 
